@@ -186,6 +186,8 @@ impl Network {
         wallet_lock: Arc<RwLock<Wallet>>,
         config_lock: Arc<RwLock<dyn Configuration + Send + Sync>>,
     ) {
+        // lock order : configs before peers
+        let configs = config_lock.read().await;
         let mut peers = self.peer_lock.write().await;
 
         let peer = peers.index_to_peers.get_mut(&peer_index);
@@ -213,7 +215,7 @@ impl Network {
             challenge,
             self.io_interface.as_ref(),
             wallet_lock.clone(),
-            config_lock,
+            &*configs,
         )
         .await
         .unwrap();
@@ -226,6 +228,8 @@ impl Network {
         blockchain_lock: Arc<RwLock<Blockchain>>,
         configs_lock: Arc<RwLock<dyn Configuration + Send + Sync>>,
     ) {
+        // lock order : configs before peers
+        let configs = configs_lock.read().await;
         let mut peers = self.peer_lock.write().await;
         let public_key;
         {
@@ -252,7 +256,7 @@ impl Network {
                     response,
                     self.io_interface.as_ref(),
                     wallet_lock.clone(),
-                    configs_lock.clone(),
+                    &*configs,
                     current_time,
                 )
                 .await;
@@ -300,6 +304,9 @@ impl Network {
 
         self.io_interface
             .send_interface_event(InterfaceEvent::PeerConnected(peer_index));
+        // request_blockchain_from_peer takes configs and blockchain, which come before peers
+        drop(peers);
+        drop(configs);
         // start block syncing here
         self.request_blockchain_from_peer(peer_index, blockchain_lock.clone())
             .await;
